@@ -505,16 +505,16 @@ CHECK = Check(
         "converse law is checked as build(match(build(endpoint, values))) = build(endpoint, values): a URL that is not in built form ('/007' for <int>) matches but rebuilds canonically ('/7'), by design",
         "negative min / max cannot be written in a rule string (werkzeug's converter-argument grammar has no sign), so signed converters are exercised with non-negative bounds",
         "F04a (AnyConverter.to_url returned the item unquoted) is repaired in /repo (3fc8bd3): the model quotes any-items with the BaseConverter safe set, toPython_toUrl_any is full strength, the former failing inputs are corpus regressions of both streams",
-        "match_build is proved at rule level for every rule of the grammar without subdomain rule (rule_build_match_partial: isolating converters and one path converter; the rule's own parts admit what the rule builds, groups = decoded converter outputs); the map-level law (rule selection by suitable_for / build_compare_key on non-overlapping maps) and build_match_fixpoint are OPEN (see Props/C04.lean) and validated by stream build-match only",
+        "match_build is proved at rule level (rule_build_match_partial: every rule of the grammar without subdomain rule; the rule's own parts admit what it builds, groups = decoded converter outputs) and at map level on the decoded path (match_build_partial: on a map where no other rule admits the path - e.g. distinct literal first segments, walkVia_none_of_first_literal - the matcher returns that rule with exactly the built values plus defaults; build_selects_suitable_rule: MapAdapter.build takes the URL of a suitable rule of the endpoint); build_match_fixpoint is proved for the selected rule (build_match_fixpoint_partial). Not proved, stream-validated: the URL plumbing around the path (script root, host -> subdomain, query cut) and that build selects the same rule again for the matched values",
     ],
     trusted_extra=["CPython urllib.parse / int / float / uuid for the modelled primitives (validated by the streams, not verified)"],
-    quick_budget=8000,
+    quick_budget=5000,
     thorough_budget=60000,
 )
 
 MANIFEST = {
     "level_text": "Machine-checked Lean 4 theorems about the model of URL building: percent-decoding undoes the builder's quoting for every text (unquote_quote: decide over all 256 bytes lifted to all strings by induction, UTF-8 round trip from Lean core), and to_python(unquote(to_url(v))) = v for every converter on its canonical domain - strings and paths (all text), ints incl. signed and zero-padded fixed_digits with min/max (decimal printing and reading proved inverse over the generated Unicode digit table), uuid, any, floats as canonical decimal text; and at rule level the rule's own compiled parts directly admit the percent-decoded path the rule builds, extracting exactly the decoded converter outputs (rule_build_match_partial: isolating converters and one path converter). The map-level build/match laws are validated by a differential stream over non-overlapping maps (model vs real code, character for character) with the property oracle on the real code.",
-    "level_note": "Trusted: Lean kernel; extract.py; harness; CPython urllib.parse/int/float/uuid (modelled, stream-validated). Partial: match_build is proved per converter and per rule; rule selection at map level and build_match_fixpoint are OPEN (stream-validated only); float <-> text is Python's.",
+    "level_note": "Trusted: Lean kernel; extract.py; harness; CPython urllib.parse/int/float/uuid (modelled, stream-validated). Partial: match_build is proved per converter, per rule and at map level on the decoded path for non-overlapping maps; build_match_fixpoint for the selected rule; URL plumbing and re-selection of the rule are stream-validated only; float <-> text is Python's.",
     "technique": "Lean 4 proof (decide +kernel over all bytes, induction over byte/digit lists, core UTF-8 and Nat.toDigits lemmas) + model/code correspondence",
     "design_ref": "DESIGN.md section 4, C04",
 }
